@@ -12,10 +12,10 @@ META = {
              'applies the splice itself and parses the result with ast.parse. Oracle: raised => source, dump(include_attributes), root identity unchanged and no _MODIFYING '
              'entry; returned => root.src equals the requested splice, the whole new source is valid, and the tree equals the from-scratch parse in structure and all '
              'positions. At least half of the edits are drawn from a CLEAN SUB-DOMAIN (inside one simple statement or block header, no newline/";" inserted or removed, not '
-             'touching the last token) where no known-finding key can apply. A cell is (domain, removed-text class, inserted text, outcome).'),
+             'touching the last token) where no known-finding key can apply. A cell is (domain, removed-text class, inserted text, outcome). Coordinates are passed, with probability 1/4 per coordinate, in one of the documented alias spellings (negative line, negative column relative to its own line, \'end\', over-large column).'),
     'budget': {'quick': 45, 'thorough': 900},
-    'floors': {'quick': {'raw_edits_checked': 20000, 'clean_domain_edits': 8000, 'returned_and_compared': 6000, 'raised_and_compared': 6000},
-               'thorough': {'raw_edits_checked': 400000, 'clean_domain_edits': 150000, 'returned_and_compared': 100000, 'raised_and_compared': 100000}},
+    'floors': {'quick': {'coordinates_spelled_with_aliases(negative/end/clipped)': 15000, 'raw_edits_checked': 20000, 'clean_domain_edits': 8000, 'returned_and_compared': 6000, 'raised_and_compared': 6000},
+               'thorough': {'coordinates_spelled_with_aliases(negative/end/clipped)': 90000, 'raw_edits_checked': 400000, 'clean_domain_edits': 150000, 'returned_and_compared': 100000, 'raised_and_compared': 100000}},
     'assumptions': ['validity of the new whole source = ast.parse (with the end-of-file convention)', 'raw node puts may adjust the put text: their post-source is taken as given'],
     'technique': 'runtime monitoring: hook-exit invariant against an independent splice + full re-parse reference',
 }
